@@ -290,7 +290,13 @@ async fn world(ctx: &mut Ctx) {
             if r.is_ok() {
                 let v_hash = hash_dump(&dump_on_chain(v.db.on_chain()));
                 ctx.check(which, "validator-state-differs", v_hash == p_hash, || {
-                    format!("{} ({:?}) state after block {height} differs from the producer's", v.name, v.strategy)
+                    let a = dump_on_chain(p.db.on_chain());
+                    let b = dump_on_chain(v.db.on_chain());
+                    let sa: std::collections::BTreeSet<_> = a.iter().collect();
+                    let sb: std::collections::BTreeSet<_> = b.iter().collect();
+                    let d1: Vec<String> = sa.difference(&sb).take(4).map(|x| format!("col{} {}={}", x.0, oracles::hex(&x.1), oracles::hex(&x.2[..x.2.len().min(24)]))).collect();
+                    let d2: Vec<String> = sb.difference(&sa).take(4).map(|x| format!("col{} {}={}", x.0, oracles::hex(&x.1), oracles::hex(&x.2[..x.2.len().min(24)]))).collect();
+                    format!("{} ({:?}) state after block {height} differs from the producer's: only producer {d1:?}; only validator {d2:?}", v.name, v.strategy)
                 });
             }
             if ctx.tape.chance(1, 6) {
